@@ -265,6 +265,14 @@ impl<'ast, 's> Visit<'ast> for Finder<'s> {
             // ---- R1: `Path::new("<string literal>")`
             syn::Expr::Call(c) if self.on("R1") && c.args.len() == 1 => {
                 let f = self.txt(&*c.func).replace(' ', "");
+                if f == "PathBuf::from" {
+                    if let syn::Expr::Lit(l) = &c.args[0] {
+                        if let syn::Lit::Str(s) = &l.lit {
+                            self.push(range_of(c), format!("pathbuf_lit({})", bytes_array(s.value().as_bytes())), "R1");
+                            return;
+                        }
+                    }
+                }
                 if f == "Path::new" {
                     if let syn::Expr::Lit(l) = &c.args[0] {
                         if let syn::Lit::Str(s) = &l.lit {
